@@ -30,15 +30,19 @@ ApplySet == IF TIER = "quick" THEN {0, 1, 63, 64, 65, 256, 257, 321}
             ELSE IF TIER = "c11" THEN {0, 1, 63, 64, 65, 193, 257, 321}
             ELSE IF TIER = "c11t" THEN {0, 1, 2, 63, 64, 65, 66, 128, 129, 193, 255, 256, 257, 321}
             ELSE {0, 1, 2, 63, 64, 65, 127, 129, 192, 255, 256, 257, 321, 513, 1025}
-Nonces == {<<65535, 65535, 0, 0, 0>>, <<4660, 22136, 0, 0, 0>>}
+Nonces == IF TIER \in {"quick", "c11"} THEN {<<65535, 65535, 0, 0, 0>>} ELSE {<<65535, 65535, 0, 0, 0>>, <<4660, 22136, 0, 0, 0>>}
 Init == /\ depth = 0
-        /\ \E v \in {"ietf", "c64"} : \E nz \in Nonces : (v = "c64" => nz = <<4660, 22136, 0, 0, 0>>) /\ InitFor(v, IF v = "c64" THEN L0 ELSE nz)
+        /\ \E v \in {"ietf", "c64"} : \E nz \in Nonces : (v = "c64" => nz = <<65535, 65535, 0, 0, 0>>) /\ InitFor(v, IF v = "c64" THEN L0 ELSE nz)
 Step == depth < DEPTH /\ depth' = depth + 1
 DoSeek(p) == Step /\ Seek(p)
+\* rewind relative to the current position (re-reading what was just produced)
+RelSet == IF TIER \in {"quick", "c11"} THEN {1, 64, 65} ELSE {1, 2, 63, 64, 65, 128, 256, 257}
+DoSeekRel(d) == Step /\ WLe(LI(d), pos) /\ WLe(WSub(pos, LI(d)), L64m) /\ Seek(WSub(pos, LI(d)))
 DoSeekBad == Step /\ SeekUnconvertible
 DoApply(n) == Step /\ Apply(n)
 DoPos == Step /\ CurrentPos
 Next == \/ \E p \in SeekSet : DoSeek(p)
+        \/ \E d \in RelSet : DoSeekRel(d)
         \/ DoSeekBad
         \/ \E n \in ApplySet : DoApply(n)
         \/ DoPos
